@@ -171,10 +171,13 @@ Definition closer_of (k : kind) : byte :=
 
 Definition dispatch_of (b : byte) : Z := nthz (dispatch c) (bz b).
 
-Fixpoint read_value (fuel : nat) (s0 : pst) : res (option node) :=
-  match fuel with
-  | O => OutOfFuel
-  | S f =>
+(* The eight readers are written with OPEN recursion: each body takes the readers it calls as
+   parameters; the fuelled mutual fixpoint below ties the knot.  (Bodies are what the proofs
+   reason about.) *)
+Definition rdr := pst -> res (option node).
+
+Definition value_body (rv : rdr) (rseq : kind -> N -> rdr) (rmap : pst -> N -> option bytes -> res (option node))
+           (rns rtag rmeta : rdr) (s0 : pst) : res (option node) :=
     let s0 := enter s0 in
     let leave_ret (r : res (option node)) : res (option node) :=
         match r with Ret v s => Ret v (leave s) | x => x end in
@@ -198,27 +201,27 @@ Fixpoint read_value (fuel : nat) (s0 : pst) : res (option node) :=
       let d := dispatch_of ch in
       if (d =? ct_string c)%Z then read_string s
       else if (d =? ct_char c)%Z then read_character c m e s
-      else if (d =? ct_list c)%Z then read_seq f KList 1 s
-      else if (d =? ct_vector c)%Z then read_seq f KVector 1 s
-      else if (d =? ct_map c)%Z then read_map f s p None
+      else if (d =? ct_list c)%Z then rseq KList 1 s
+      else if (d =? ct_vector c)%Z then rseq KVector 1 s
+      else if (d =? ct_map c)%Z then rmap s p None
       else if (d =? ct_hash c)%Z then
-        if (p + 1 <? e) && is_byte (m (p + 1)) "{" then read_seq f KSet 2 s
+        if (p + 1 <? e) && is_byte (m (p + 1)) "{" then rseq KSet 2 s
         else if (p + 1 <? e) && is_byte (m (p + 1)) "#" then read_symbolic m e s
         else if (p + 1 <? e) && is_byte (m (p + 1)) "_" then
           (* discard.c *)
           let old := discard s in
-          match read_value f (with_discard (with_cur s (p + 2)) true) with
+          match rv (with_discard (with_cur s (p + 2)) true) with
           | Ret dv s1 =>
             let s2 := with_discard s1 old in
             match dv with
             | None =>
               if is_ok s2 then Ret None (err_at s2 EDiscard p (p + 2)) else Ret None s2
-            | Some _ => if is_ok s2 then read_value f s2 else Ret None s2
+            | Some _ => if is_ok s2 then rv s2 else Ret None s2
             end
           | x => x
           end
-        else if clj c && (p + 1 <? e) && is_byte (m (p + 1)) ":" then read_nsmap f s
-        else read_tagged f s
+        else if clj c && (p + 1 <? e) && is_byte (m (p + 1)) ":" then rns s
+        else rtag s
       else if (d =? ct_sign c)%Z then
         if (p + 1 <? e) && Scan.is_digit (m (p + 1)) then read_number_tok c m e s
         else read_identifier m e s
@@ -226,19 +229,16 @@ Fixpoint read_value (fuel : nat) (s0 : pst) : res (option node) :=
       else if (d =? ct_delim c)%Z then
         if depth s =? 0 then Ret None (with_err s EUnmatched MStatic)
         else Ret None s
-      else if clj c && (d =? ct_meta c)%Z then read_meta f s
+      else if clj c && (d =? ct_meta c)%Z then rmeta s
       else read_identifier m e s
-    end)
-  end
+    end).
 
 (* list / vector / set *)
-with read_seq (fuel : nat) (k : kind) (skip : N) (s : pst) : res (option node) :=
-  match fuel with
-  | O => OutOfFuel
-  | S f =>
+Definition seq_body (relems : pst -> list node -> res (option (list node))) (k : kind) (skip : N) (s : pst)
+  : res (option node) :=
     let start := cur s in
     let s1 := with_depth (with_cur s (start + skip)) (depth s + 1) in
-    match read_elems f s1 [] with
+    match relems s1 [] with
     | Ret (Some els) s2 =>
       if negb (is_ok s2) then
         let s3 := if is_eof s2 then err_at s2 EUnterminated start (cur s2) else s2 in
@@ -258,28 +258,22 @@ with read_seq (fuel : nat) (k : kind) (skip : N) (s : pst) : res (option node) :
         end
     | Ret None s2 => Ret None s2
     | UBx x => UBx x | OOBx x => OOBx x | OutOfFuel => OutOfFuel
-    end
-  end
+    end.
 
 (* the element loop shared by list/vector/set: reads until read_value returns NULL *)
-with read_elems (fuel : nat) (s : pst) (acc : list node) : res (option (list node)) :=
-  match fuel with
-  | O => OutOfFuel
-  | S f =>
-    match read_value f s with
-    | Ret (Some v) s1 => read_elems f s1 (v :: acc)
+Definition elems_body (rv : rdr) (relems : pst -> list node -> res (option (list node))) (s : pst) (acc : list node)
+  : res (option (list node)) :=
+    match rv s with
+    | Ret (Some v) s1 => relems s1 (v :: acc)
     | Ret None s1 => Ret (Some (rev acc)) s1
     | UBx x => UBx x | OOBx x => OOBx x | OutOfFuel => OutOfFuel
-    end
-  end
+    end.
 
 (* collection.c edn_read_map_internal; ns = namespaced-map prefix *)
-with read_map (fuel : nat) (s : pst) (start : N) (ns : option bytes) : res (option node) :=
-  match fuel with
-  | O => OutOfFuel
-  | S f =>
+Definition map_body (rentries : pst -> N -> option bytes -> list node -> list node -> res (option (list node * list node)))
+           (s : pst) (start : N) (ns : option bytes) : res (option node) :=
     let s1 := with_depth (with_cur s (cur s + 1)) (depth s + 1) in
-    match read_entries f s1 start ns [] [] with
+    match rentries s1 start ns [] [] with
     | Ret (Some (ks, vs)) s2 =>
       if e <=? cur s2 then Ret None (with_depth (err_at s2 EEof start (cur s2)) (depth s2 - 1))
       else if negb (Byte.eqb (m (cur s2)) "}"%byte) then
@@ -291,44 +285,39 @@ with read_map (fuel : nat) (s : pst) (start : N) (ns : option bytes) : res (opti
         else Ret (Some (mk (VMap ks' vs) start (cur s3))) s3
     | Ret None s2 => Ret None s2
     | UBx x => UBx x | OOBx x => OOBx x | OutOfFuel => OutOfFuel
-    end
-  end
+    end.
 
 (* key/value loop of the map reader.  Ret None = the reader already returned NULL with the
    state given (depth already decremented) *)
-with read_entries (fuel : nat) (s : pst) (start : N) (ns : option bytes) (ks vs : list node)
+Definition entries_body (rv : rdr)
+           (rentries : pst -> N -> option bytes -> list node -> list node -> res (option (list node * list node)))
+           (s : pst) (start : N) (ns : option bytes) (ks vs : list node)
   : res (option (list node * list node)) :=
-  match fuel with
-  | O => OutOfFuel
-  | S f =>
-    match read_value f s with
+    match rv s with
     | Ret None s1 =>
       if negb (is_ok s1) then
         let s2 := if is_eof s1 then err_at s1 EUnterminated start (cur s1) else s1 in
         Ret None (with_depth s2 (depth s2 - 1))
       else Ret (Some (rev ks, rev vs)) s1
     | Ret (Some k) s1 =>
-      match read_value f s1 with
+      match rv s1 with
       | Ret None s2 =>
         let s3 := if is_ok s2 then err_at s2 ESyntax start (cur s2)
                   else if is_eof s2 then err_at s2 EUnterminated start (cur s2) else s2 in
         Ret None (with_depth s3 (depth s3 - 1))
       | Ret (Some v) s2 =>
         let k' := match ns with Some q => qualify_key q k | None => k end in
-        read_entries f s2 start ns (k' :: ks) (v :: vs)
+        rentries s2 start ns (k' :: ks) (v :: vs)
       | UBx x => UBx x | OOBx x => OOBx x | OutOfFuel => OutOfFuel
       end
     | UBx x => UBx x | OOBx x => OOBx x | OutOfFuel => OutOfFuel
-    end
-  end
+    end.
 
 (* collection.c edn_read_namespaced_map (Clojure) *)
-with read_nsmap (fuel : nat) (s : pst) : res (option node) :=
-  match fuel with
-  | O => OutOfFuel
-  | S f =>
+Definition nsmap_body (rv : rdr) (rmap : pst -> N -> option bytes -> res (option node)) (s : pst)
+  : res (option node) :=
     let start := cur s in
-    match read_value f (with_cur s (start + 1)) with
+    match rv (with_cur s (start + 1)) with
     | Ret None s1 => Ret None s1
     | Ret (Some kw) s1 =>
       match nval kw with
@@ -336,18 +325,14 @@ with read_nsmap (fuel : nat) (s : pst) : res (option node) :=
         let q := skip_ws m (cur s1) e in
         let s2 := with_ext (with_cur s1 q) "nsmap" in
         if (e <=? q) || negb (is_byte (m q) "{") then Ret None (err_at s2 ESyntax start q)
-        else read_map f s2 start (Some nm)
+        else rmap s2 start (Some nm)
       | _ => Ret None (err_at s1 ESyntax start (cur s1))
       end
     | x => x
-    end
-  end
+    end.
 
 (* tagged.c *)
-with read_tagged (fuel : nat) (s : pst) : res (option node) :=
-  match fuel with
-  | O => OutOfFuel
-  | S f =>
+Definition tagged_body (rv : rdr) (s : pst) : res (option node) :=
     let start := cur s in
     let s1 := with_cur s (start + 1) in           (* depth incremented; restored on every exit *)
     let d0 := depth s in
@@ -361,7 +346,7 @@ with read_tagged (fuel : nat) (s : pst) : res (option node) :=
         match nval tv with
         | VSymbol _ _ =>
           let tag := slice m tag_start (N.to_nat (cur s2 - tag_start)) in
-          match read_value f (with_depth s2 (d0 + 1)) with
+          match rv (with_depth s2 (d0 + 1)) with
           | Ret None s3 =>
             let s4 := with_depth s3 d0 in
             if is_ok s4 then Ret None (err_at s4 EEof start (cur s4)) else Ret None s4
@@ -387,22 +372,18 @@ with read_tagged (fuel : nat) (s : pst) : res (option node) :=
         | _ => Ret None (err_at s2 ESyntax start (cur s2))
         end
       | x => x
-      end
-  end
+      end.
 
 (* metadata.c (Clojure) *)
-with read_meta (fuel : nat) (s : pst) : res (option node) :=
-  match fuel with
-  | O => OutOfFuel
-  | S f =>
+Definition meta_body (rv : rdr) (s : pst) : res (option node) :=
     let start := cur s in
-    match read_value f (with_ext (with_cur s (start + 1)) "metadata") with
+    match rv (with_ext (with_cur s (start + 1)) "metadata") with
     | Ret None s1 =>
       if is_ok s1 then Ret None (err_at s1 ESyntax start (cur s1)) else Ret None s1
     | Ret (Some a) s1 =>
       if negb (meta_ok_annotation (nval a)) then Ret None (err_at s1 ESyntax start (cur s1))
       else
-        match read_value f s1 with
+        match rv s1 with
         | Ret None s2 =>
           if is_ok s2 then Ret None (err_at s2 ESyntax start (cur s2)) else Ret None s2
         | Ret (Some form) s2 =>
@@ -423,9 +404,53 @@ with read_meta (fuel : nat) (s : pst) : res (option node) :=
         | x => x
         end
     | x => x
-    end
-  end.
+    end.
 
+(* The callees are passed eta-expanded so that (in the extracted, strict code) a reader for
+   smaller fuel is only built when it is actually called. *)
+Fixpoint read_value (fuel : nat) (s0 : pst) {struct fuel} : res (option node) :=
+  match fuel with
+  | O => OutOfFuel
+  | S f => value_body (fun s => read_value f s) (fun k n s => read_seq f k n s)
+                      (fun s p ns => read_map f s p ns) (fun s => read_nsmap f s)
+                      (fun s => read_tagged f s) (fun s => read_meta f s) s0
+  end
+with read_seq (fuel : nat) (k : kind) (skip : N) (s : pst) {struct fuel} : res (option node) :=
+  match fuel with
+  | O => OutOfFuel
+  | S f => seq_body (fun s1 acc => read_elems f s1 acc) k skip s
+  end
+with read_elems (fuel : nat) (s : pst) (acc : list node) {struct fuel} : res (option (list node)) :=
+  match fuel with
+  | O => OutOfFuel
+  | S f => elems_body (fun s1 => read_value f s1) (fun s1 a => read_elems f s1 a) s acc
+  end
+with read_map (fuel : nat) (s : pst) (start : N) (ns : option bytes) {struct fuel} : res (option node) :=
+  match fuel with
+  | O => OutOfFuel
+  | S f => map_body (fun s1 st n ks vs => read_entries f s1 st n ks vs) s start ns
+  end
+with read_entries (fuel : nat) (s : pst) (start : N) (ns : option bytes) (ks vs : list node) {struct fuel}
+  : res (option (list node * list node)) :=
+  match fuel with
+  | O => OutOfFuel
+  | S f => entries_body (fun s1 => read_value f s1) (fun s1 st n k v => read_entries f s1 st n k v) s start ns ks vs
+  end
+with read_nsmap (fuel : nat) (s : pst) {struct fuel} : res (option node) :=
+  match fuel with
+  | O => OutOfFuel
+  | S f => nsmap_body (fun s1 => read_value f s1) (fun s1 p n => read_map f s1 p n) s
+  end
+with read_tagged (fuel : nat) (s : pst) {struct fuel} : res (option node) :=
+  match fuel with
+  | O => OutOfFuel
+  | S f => tagged_body (fun s1 => read_value f s1) s
+  end
+with read_meta (fuel : nat) (s : pst) {struct fuel} : res (option node) :=
+  match fuel with
+  | O => OutOfFuel
+  | S f => meta_body (fun s1 => read_value f s1) s
+  end.
 
 (* ---- error positions (newline_finder.c) ---- *)
 (* binary_search_line: None = SIZE_MAX (first line) *)
